@@ -7,6 +7,7 @@ import numpy as np
 import thermosteam as tmo
 from thermosteam import equilibrium as eq
 from vlib import chem, streams as vs
+from vlib.runner import Violation, innermost_frame
 
 PROPERTY = 'C13'
 RULE = ('(matrix) Hypothesis draws an operation (copy [optionally onto another package], copy_like, '
@@ -18,11 +19,15 @@ RULE = ('(matrix) Hypothesis draws an operation (copy [optionally onto another p
         'the same phase label (or the case twin when the exact label is not among the target phases), the same T and P, '
         'the source is unchanged; then every flow, T, P and the phase of one side is overwritten (item writes, slice '
         'writes or empty()) and the other side must be unchanged, in both directions. '
+        'After copy / copy_like / copy_flow the flows of source AND target are also read by NAME (every single ID, a '
+        'drawn tuple of IDs, with phase and summed over phases) in both lookup orders and compared with the raw rows '
+        'through the check\'s own name->CAS table. '
         'Sources also include a phase sub-stream (view) of a MultiStream; target phase sets are drawn equal to, as '
         'case twins of, or independently of the source\'s. '
         '(proxy) proxy / flow_proxy of every kind (constructor-built and converted MultiStreams), identity of the '
-        'shared containers, write-through in both directions, optionally reading the phase sub-streams of the proxy, '
-        'then unlink of either member. '
+        'shared containers, write-through in both directions, phase sub-streams handed out by the original before '
+        'the proxy exists / by both afterwards / by the proxy only, then unlink of either member, after which the '
+        'sub-streams of each must follow (and write) their own stream. '
         '(substream) for multi-phase streams the phase sub-streams ms[phase] (handed out before or after the '
         'operation) must show and write the stream\'s row, T and P after link_with (8 flag subsets), unlink, '
         'copy_like, copy, flow_proxy. '
@@ -140,10 +145,34 @@ def skey(spec):
     return [spec['kind3'], spec['pkg'], spec['phases'], zero_pattern(spec)]
 
 
+def _guarded(fn):
+    def reader(s, *a):
+        try:
+            return fn(s, *a)
+        except Exception as e:
+            raise Violation(f'{PROPERTY}|observe|snapshot|exc:{type(e).__name__}@{innermost_frame(e)}',
+                            f'reading the flows of a {type(s).__name__} raised {type(e).__name__}: {str(e)[:200]}')
+    return reader
+
+
+class _Readers:
+    """vlib.streams readers; a stream that can no longer be read is a violation, not a harness error."""
+    ALL_PHASES = vs.ALL_PHASES
+    phases_of = staticmethod(vs.phases_of)
+    dense = staticmethod(_guarded(vs.dense))
+    by_phase = staticmethod(_guarded(vs.by_phase))
+    build = staticmethod(vs.build)
+
+
 def snap(s):
     """Observable state: class name, phase labels, per-phase CAS-keyed flows, T, P (plain Python/NumPy)."""
-    return {'cls': type(s).__name__, 'phases': tuple(vs.phases_of(s)), 'rows': vs.by_phase(s),
-            'T': float(s.T), 'P': float(s.P)}
+    try:
+        return {'cls': type(s).__name__, 'phases': tuple(vs.phases_of(s)), 'rows': _Readers.by_phase(s),
+                'T': float(s.T), 'P': float(s.P)}
+    except Exception as e:
+        # the stream can no longer even be read (e.g. an entry written beyond the number of chemicals)
+        raise Violation(f'{PROPERTY}|observe|snapshot|exc:{type(e).__name__}@{innermost_frame(e)}',
+                        f'reading phases/flows/T/P of a {type(s).__name__} raised {type(e).__name__}: {str(e)[:200]}')
 
 
 def nonzero_rows(rows):
@@ -168,7 +197,7 @@ def overwrite(s, how, salt):
     if how == 'empty':
         s.empty()
     elif how == 'slice':
-        a = vs.dense(s)
+        a = _Readers.dense(s)
         new = a * 0.5 + salt
         if data.ndim == 1: data[:] = new[0]
         else: data[:] = new
@@ -272,6 +301,39 @@ def rows_equal(got, want, merged=False):
 # ---------------------------------------------------------------------------
 # (1) stateless matrix
 # ---------------------------------------------------------------------------
+def draw_named(ch, tag, pkg):
+    """Which chemicals are read back by name: a tuple of IDs in drawn order (single IDs are all read)."""
+    names = list(names_of(pkg))
+    return ch.subset(f'{tag}.ids', names, min_size=1, max_size=min(4, len(names)))
+
+
+def named_reads(ctx, x, pkg, ids, site, region, who):
+    """Flows read BY NAME (single ID, tuple of IDs, with and without phase) equal the raw rows of the same stream.
+
+    The name -> CAS table is the check's own (vlib.chem.PACKAGES order against the package's CAS list)."""
+    th = thermo_for(pkg)
+    cas_of = dict(zip(names_of(pkg), th.chemicals.CASs))
+    st = snap(x)
+    multi = isinstance(x, tmo.MultiStream)
+    def bad(key, got, want):
+        ctx.fail(f'{site}|{region}|named-read-mismatch:{who}', f'{who}.imol[{key!r}] = {got!r}, raw data say {want!r}')
+    for q in st['phases']:
+        row = st['rows'][q]
+        for ID in names_of(pkg):
+            key = (q, ID) if multi else ID
+            got = ctx.call(site + '.named', x.imol.__getitem__, key, region=region)
+            if float(got) != row[cas_of[ID]]: bad(key, got, row[cas_of[ID]])
+        key = (q, tuple(ids)) if multi else tuple(ids)
+        got = np.asarray(ctx.call(site + '.named', x.imol.__getitem__, key, region=region), float).tolist()
+        want = [row[cas_of[ID]] for ID in ids]
+        if got != want: bad(key, got, want)
+    if multi:
+        for ID in ids:
+            got = float(ctx.call(site + '.named', x.imol.__getitem__, ID, region=region))
+            want = sum(st['rows'][q][cas_of[ID]] for q in st['phases'])
+            if abs(got - want) > 1e-12 * max(1.0, abs(want)): bad(ID, got, want)
+
+
 SRC_KINDS = ['S', 'S', 'M1', 'M1', 'M', 'M', 'V']     # V: a phase sub-stream (view) of a MultiStream
 
 
@@ -401,6 +463,12 @@ def prop_matrix(ch, ctx):
         ctx.check(t1['T'] == t0['T'] and t1['P'] == t0['P'] and t1['phases'] == t0['phases'],
                   f'{site}|{region}|target-other-changed', 'T/P/phases of the target changed')
     ctx.check(snap(s) == s0, f'{site}|{region}|source-modified', 'the source changed')
+    # name-keyed reads on both sides, in both lookup orders (raw arrays can agree while the ID lookup is off)
+    sids = draw_named(ch, 'named.src', spkg); tids = draw_named(ch, 'named.tgt', tpkg)
+    sides = [('source', s, spkg, sids), ('target', t, tpkg, tids)]
+    if ch.bool('named.target_first'): sides.reverse()
+    for who, x, pk, ids in sides + sides[:1]:
+        named_reads(ctx, x, pk, ids, site, region, who)
     # independence, both directions
     t1 = snap(t)
     ctx.call(site + '.overwrite', overwrite, owner, how, 1.0, region=region)
@@ -453,6 +521,12 @@ def _matrix_copy(ch, ctx, sk, xpkg, spkg, how):
     # documented: price and CFs are not copied
     ctx.check(c.price == 0 and c.characterization_factors == {}, f'{site}|{region}|price-cf-copied',
               f'{c.price} {c.characterization_factors}')
+    cpkg = tpkg if xpkg else spkg
+    sids = draw_named(ch, 'named.src', spkg); cids = draw_named(ch, 'named.copy', cpkg)
+    sides = [('source', s, spkg, sids), ('copy', c, cpkg, cids)]
+    if ch.bool('named.copy_first'): sides.reverse()
+    for who, x, pk, ids in sides + sides[:1]:
+        named_reads(ctx, x, pk, ids, site, region, who)
     ctx.check(c.imol is not s.imol and c.imol.data is not s.imol.data and c.thermal_condition is not s.thermal_condition,
               f'{site}|{region}|container-shared', 'copy shares a container with the original')
     ctx.check(snap(s) == s0 and s.price == price, f'{site}|{region}|source-modified', 'the source changed')
@@ -494,11 +568,15 @@ def prop_proxy(ch, ctx):
     ctx.cell(f'x:{op}:src={sk},via={via}')
     if nonzero_rows(s0['rows']):
         ctx.nontriv(['proxy', op, then, skey(src), via, how])
+    multi = sk != 'S'
+    # phase sub-streams handed out by the original before the proxy exists, by both afterwards, by the proxy only, or not at all
+    subs = ch.choice('substreams', ['none', 'original-before', 'both-after', 'proxy-after']) if multi else 'none'
+    if subs == 'original-before':
+        for q in s.phases: s[q]
     p = ctx.call(site, getattr(s, op), region=region)
     ctx.check(type(p) is type(s) and snap(p) == s0 and snap(s) == s0, f'{site}|{region}|state-mismatch',
               lambda: f'proxy {snap(p)} original {s0}')
     f, t, ph = shares(p, s)
-    multi = sk != 'S'
     if op == 'proxy':
         ctx.check(f and t and ph in (True, None), f'{site}|{region}|not-shared', f'flow {f} TP {t} phase {ph}')
     else:
@@ -515,11 +593,14 @@ def prop_proxy(ch, ctx):
         else:
             ctx.check((b['T'], b['P'], b['phases']) == (before['T'], before['P'], before['phases']),
                       f'{site}|{region}|TP-phase-shared', 'flow proxy follows T/P/phase of its partner')
-    if multi and ch.bool('read_substreams'):
+    if subs != 'none':
+        ctx.cell('x:substreams=' + subs)
+        if subs == 'both-after':
+            for q in s.phases: s[q]
         # the flows of a multi-phase proxy are also observable through its phase sub-streams
         for q in p.phases:
             sub = ctx.call(site + '.substream', p.__getitem__, q, region=region)
-            ctx.check(vs.by_phase(sub)[q] == vs.by_phase(p)[q] and sub.T == p.T and sub.P == p.P,
+            ctx.check(_Readers.by_phase(sub)[q] == _Readers.by_phase(p)[q] and sub.T == p.T and sub.P == p.P,
                       f'{site}.substream|{region}|mismatch', f'sub-stream {q} differs from the row of the proxy')
     if then != 'none':
         u, o = (p, s) if then == 'unlink_proxy' else (s, p)
@@ -545,6 +626,11 @@ def prop_proxy(ch, ctx):
             ctx.check(not d, f'{site2}|{region2}|derived-stale', lambda: 'changed stream: ' + '; '.join(d))
             d = props_diff(read_props(y), py)
             ctx.check(not d, f'{site2}|{region2}|derived-leak', lambda: 'untouched stream after its former partner changed: ' + '; '.join(d))
+        if subs != 'none':
+            # after the separation the sub-streams each of them hands out (or handed out before) follow their own stream
+            check_views(ctx, o, site2 + '.views', region2 + ',of=partner', salt=5.0)
+            check_views(ctx, u, site2 + '.views', region2 + ',of=unlinked', salt=6.0)
+            check_views(ctx, o, site2 + '.views', region2 + ',of=partner', salt=7.0)
 
 
 # ---------------------------------------------------------------------------
@@ -555,9 +641,9 @@ def check_views(ctx, x, site, region, partner=None, salt=0.0):
     names = x.chemicals.IDs
     for r, q in enumerate(x.phases):
         v = ctx.call(site, x.__getitem__, q, region=region)
-        row = vs.by_phase(x)[q]
-        ctx.check(vs.by_phase(v) == {q: row} and v.T == x.T and v.P == x.P, f'{site}|{region}|view-stale',
-                  lambda: f'sub-stream {q}: {vs.by_phase(v)} T={v.T} P={v.P}; stream row {row} T={x.T} P={x.P}')
+        row = _Readers.by_phase(x)[q]
+        ctx.check(_Readers.by_phase(v) == {q: row} and v.T == x.T and v.P == x.P, f'{site}|{region}|view-stale',
+                  lambda: f'sub-stream {q}: {_Readers.by_phase(v)} T={v.T} P={v.P}; stream row {row} T={x.T} P={x.P}')
         val = 11.0 + r + salt
         v.imol[names[0]] = val
         ctx.check(x.imol[q, names[0]] == val, f'{site}|{region}|view-write-lost', f'write through sub-stream {q} not in the stream')
@@ -617,7 +703,7 @@ def check_member_views(ctx, x, th, site, region, who):
     ctx.check(not d, f'{site}|{region}|view-mismatch:{who}',
               lambda: f'{who} (phases {vs.phases_of(x)}, T={x.T}, P={x.P}): ' + '; '.join(d))
     if not isinstance(got['mass'], str):
-        mass = vs.dense(x) * np.asarray(th.chemicals.MW, float)
+        mass = _Readers.dense(x) * np.asarray(th.chemicals.MW, float)
         ctx.check(np.allclose(got['mass'].reshape(mass.shape), mass, rtol=1e-12, atol=0.0),
                   f'{site}|{region}|mass-view-mismatch:{who}', 'mass view is not mol*MW')
 
@@ -710,7 +796,7 @@ def check_world(ctx, w, site, region):
     N = len(w.real)
     for i in range(N):
         s = w.real[i]
-        a = vs.dense(s)
+        a = _Readers.dense(s)
         want = w.F[w.f[i]]
         if a.shape != want.shape or not np.array_equal(a, want):
             ctx.fail(f'{site}|{region}|flows-mismatch', f'stream {i}: {a.tolist()} model {want.tolist()}')
@@ -749,7 +835,7 @@ def prop_links(ch, ctx):
         spec = draw_stream(ch, f's{k}', kind, pkg, phases=phases)
         via = ch.choice(f's{k}.via', ['ctor', 'conv']) if kind == 'M' else 'ctor'
         s = build(spec, via)
-        w.add(s, vs.dense(s).copy(), spec['T'], spec['P'], spec['phases'][0] if kind == 'S' else None,
+        w.add(s, _Readers.dense(s).copy(), spec['T'], spec['P'], spec['phases'][0] if kind == 'S' else None,
               ctor=(via == 'ctor' and kind != 'S'))
     region = f'kind={kind}'
     check_world(ctx, w, 'links.init', region)
@@ -1286,7 +1372,7 @@ def flash_T(th, names, z):
     try:
         s = tmo.Stream(None, flow=np.array(z, float), thermo=th)
         s.vle(V=0.3, P=101325.)
-        return [float(s.T), np.asarray(vs.dense(s), float).round(9).tolist()]
+        return [float(s.T), np.asarray(_Readers.dense(s), float).round(9).tolist()]
     except Exception as e:
         return 'exc:' + type(e).__name__
 
